@@ -218,6 +218,11 @@ func describeArg(ci ssa.CallInstruction, i int) string {
 type describer struct {
 	depth int
 	facts []Fact // when set (describeAt): merges are resolved by these facts
+	// ctx: the block of the instruction whose operands are being rendered. A merge (phi) read by
+	// an instruction of block B has, at that read, the one incoming value the facts that hold on
+	// entry to B leave possible (result variables and fields-turned-locals of expanded helpers
+	// are merged together with the flag that says which way the helper returned).
+	ctx *ssa.BasicBlock
 }
 
 func describe(v ssa.Value) string { return (&describer{}).d(v, 0) }
@@ -228,6 +233,13 @@ func (ds *describer) d(v ssa.Value, depth int) string {
 	}
 	if depth > 12 {
 		return "…"
+	}
+	if in, ok := v.(ssa.Instruction); ok && in.Block() != nil {
+		if _, isPhi := v.(*ssa.Phi); !isPhi {
+			saved := ds.ctx
+			ds.ctx = in.Block()
+			defer func() { ds.ctx = saved }()
+		}
 	}
 	switch x := v.(type) {
 	case *ssa.Const:
@@ -359,6 +371,10 @@ func (ds *describer) d(v ssa.Value, depth int) string {
 	case *ssa.Phi:
 		if ds.facts != nil {
 			if rv := refine(x, ds.facts); rv != ssa.Value(x) {
+				return ds.d(rv, depth+1)
+			}
+		} else if ds.ctx != nil && ds.ctx != x.Block() {
+			if rv := refine(x, blockFacts(ds.ctx)); rv != ssa.Value(x) {
 				return ds.d(rv, depth+1)
 			}
 		}
@@ -954,4 +970,10 @@ func deref(v ssa.Value) ssa.Value {
 		v = sv
 	}
 	return v
+}
+
+// fieldName is the name of the field addressed by fa.
+func fieldName(fa *ssa.FieldAddr) string {
+	t := fa.X.Type().Underlying().(*types.Pointer).Elem().Underlying().(*types.Struct)
+	return t.Field(fa.Field).Name()
 }
